@@ -43,20 +43,22 @@ def sym_regions():
 
 
 def universe(depth, root_level=1):
-    """ids of the subtree below pixel 0 of level root_level, per level"""
+    """ids of the subtree below pixel 0 of level root_level (0 = a whole base pixel), per level"""
     return {d: list(range(4 ** max(0, d - root_level))) if d >= root_level else [0] for d in range(1, depth + 1)}
 
 
 def mk(reg, name, depth, uni, cached=False):
-    r = reg.Region.__new__(reg.Region)
-    r.maxdepth = depth
+    r = reg.Region(maxdepth=depth)         # the real constructor decides which levels exist
+    for d in list(r.pixeldict):
+        if not isinstance(r.pixeldict[d], SymSet):
+            r.pixeldict[d] = SymSet()
     if cached:
         # state after a query: everything demoted, cache aliases the deepest set
-        r.pixeldict = {d: SymSet() for d in range(1, depth)}
         r.pixeldict[depth] = SymSet.fresh(uni[depth], '%s%d' % (name, depth))
         r.demoted = r.pixeldict[depth]
     else:
-        r.pixeldict = {d: SymSet.fresh(uni[d], '%s%d' % (name, d)) for d in range(1, depth + 1)}
+        for d in range(1, depth + 1):
+            r.pixeldict[d] = SymSet.fresh(uni[d], '%s%d' % (name, d))
         r.demoted = SymSet()
     return r
 
@@ -68,9 +70,9 @@ def alpha(r, uni, depth=None):
     top = max(uni[D]) + 1
     for u in range(top):
         leaves[u] = FALSE
-    for d in range(1, D + 1):
+    for d in sorted(r.pixeldict):
         S = r.pixeldict.get(d)
-        if S is None:
+        if S is None or d > D or not isinstance(S, SymSet):
             continue
         f = 4 ** (D - d)
         for u, b in S.bits.items():
@@ -384,7 +386,7 @@ def replay_case(w):
             import healpy
             import numpy
             want = ea
-            top = 4 ** (D - 1) if not w.get('allsky') else 12 * 4 ** D
+            top = (4 ** D if any(u >= 4 ** (int(d_) - 1) for d_, ids_ in a_lv.items() for u in ids_) else 4 ** (D - 1)) if not w.get('allsky') else 12 * 4 ** D
             pts = list(range(top))
             th, ph = healpy.pix2ang(2 ** D, numpy.array(pts), nest=True)
             got = a.sky_within(ph, numpy.pi / 2 - th, degin=False)
@@ -494,6 +496,14 @@ def run(rep):
             cases.append((h_within(reg, D, uni, cA, pts), dict(op='within', D=D, cachedA=cA)))
     for cA in (False, True):
         cases.append((h_nonfinite(reg, cA), dict(op='within', D=1, cachedA=cA, allsky=True)))
+    # whole base pixel 0 (its four level-1 children and their descendants): complete sibling groups at level 1
+    for D in (1, 2):
+        uni0 = universe(D, 0)
+        for op in ('union', 'without'):
+            cases.append((h_binop(reg, op, D, uni0, False, False), dict(op=op, D=D, odepth=D, cachedA=False, cachedB=False, renorm=True)))
+        for dep in range(1, D + 1):
+            cases.append((h_addpix(reg, D, uni0, False, dep), dict(op='add_pixels', D=D, cachedA=False, pix_depth=dep)))
+        cases.append((h_query(reg, D, uni0, False), dict(op='query', D=D, cachedA=False)))
     budget = 60 if not thorough else 600
     for h, meta in cases:
         st, res = explore(h, workers=workers, wall_s=budget)
@@ -519,6 +529,14 @@ def membership_kernel(rep, pid):
             cases.append((h_within(reg, D, uni, cA, pts), dict(op='within', D=D, cachedA=cA)))
     for cA in (False, True):
         cases.append((h_nonfinite(reg, cA), dict(op='within', D=1, cachedA=cA, allsky=True)))
+    # whole base pixel 0 (its four level-1 children and their descendants): complete sibling groups at level 1
+    for D in (1, 2):
+        uni0 = universe(D, 0)
+        for op in ('union', 'without'):
+            cases.append((h_binop(reg, op, D, uni0, False, False), dict(op=op, D=D, odepth=D, cachedA=False, cachedB=False, renorm=True)))
+        for dep in range(1, D + 1):
+            cases.append((h_addpix(reg, D, uni0, False, dep), dict(op='add_pixels', D=D, cachedA=False, pix_depth=dep)))
+        cases.append((h_query(reg, D, uni0, False), dict(op='query', D=D, cachedA=False)))
     for h, meta in cases:
         st, res = explore(h, workers=1, wall_s=120)
         rep.stats(st)
@@ -528,6 +546,12 @@ def membership_kernel(rep, pid):
                 if ob['result'] == 'sat':
                     w = dict(meta)
                     w['a_levels'] = model_levels(ob['model'], 'a', meta['D'], meta.get('cachedA'))
+                    if 'odepth' in meta:
+                        w['b_levels'] = model_levels(ob['model'], 'b', meta['odepth'], meta.get('cachedB'))
+                    if meta['op'] == 'add_pixels':
+                        w['pix'] = sorted(int(k.split('_')[1]) for k, v in ob['model'].items() if k.startswith('p%d_' % meta['pix_depth']) and v is True)
+                    if meta['op'] == 'query':
+                        w['nodup'] = 'area' in ob['name']
                     w['kind'] = 'membership'
                     try:
                         bad, cls, detail = replay_case(w)
